@@ -25,7 +25,7 @@ CLAIMED = {
         technique="SMT-based bounded model checking (z3) of all interleavings of the real reset-event functions (from MIR) with an explicit all-permutations linearizability query; Kani/CBMC contract check of the awaiter list",
         design_ref="DESIGN.md §5 C08",
         text="For every scenario (auto-reset and manual-reset event, 2-3 threads, <= 5 logical operations from set / reset / try_wait / wait-poll / re-poll with a new waker / drop-wait) z3 decides over ALL interleavings of the visible steps of the real EventInner::{set, reset, try_wait, poll_wait, drop_wait} and Awaiter::{take_notification, is_registered, is_notified} (from MIR; mutex lock/unlock; waiter list replaced by its FIFO-with-generations contract): "
-             "the history (invocation/response stamps and results) has a linearization w.r.t. the boolean-flag specification - refuted permutation by permutation -, no waiter is left registered while the signal is stored, HAS_WAITERS clear implies an empty waiter list, a notified waiter's latest waker was invoked, manual set releases every waiter registered before it, waker clones = drops. The contract of the waiter list is checked against the real awaiter_set crate with Kani (3 awaiters, FIFO order, generations, lifecycle bytes). "
+             "the history (invocation/response stamps and results) has a linearization w.r.t. the boolean-flag specification - refuted permutation by permutation -, no waiter is left registered while the signal is stored, HAS_WAITERS clear implies an empty waiter list, a notified waiter's latest waker was invoked, manual set releases every waiter registered before it, waker clones = drops. The contract of the waiter list is checked against the real awaiter_set crate with Kani (3 awaiters, FIFO order, generations, lifecycle bytes); the single-threaded LocalAutoResetEvent / LocalManualResetEvent are decided with Kani against the sequential specification (two wait futures, solver-chosen polls / sets / reset / cancellation, wake-ups and waker balance). "
              "One genuine defect (manual-reset: a set() straddling a reset() releases a waiter that started after the reset) is reproduced natively and reported as KNOWN-FINDING. Bounded, not a proof.",
         note="Sequentially consistent interleaving semantics for values (two kinds of atomic locations); happens-before tracked. Trusts rustc's MIR, extraction tables (fail closed), fingerprint-pinned hand models, z3, Kani/CBMC.",
     ),
